@@ -1204,8 +1204,11 @@ class ModelBuilder:
                     return None
             return current  # type: ignore[return-value]
         else:
-            # Search from project root
-            for task in project.tasks:
+            # Search from project root: a top-level task with that id wins; only if there is
+            # none fall back to the first task with that short id anywhere in the tree
+            # (otherwise 'depends a' is captured by a nested 'g.a' declared earlier)
+            candidates = [t for t in project.tasks if t.parent is None] + list(project.tasks)
+            for task in candidates:
                 if task.id == parts[0]:
                     if len(parts) == 1:
                         return task  # type: ignore[return-value]
